@@ -73,7 +73,7 @@ LApproxRat(v, p, q) ==
             IN  \/ m[2] = p /\ m[3] = 0 /\ m[4] = 0
                 \/ m[2] = p - 1 /\ m[3] = B16 - 1 /\ m[4] = B16 - 1
 \* sum of two non-negative limb numbers (magnitudes), carries normalised
-LAddMag(a, b) ==
+LSumMag(a, b) ==
     LET s6 == a[6] + b[6]  c6 == s6 \div B16
         s5 == a[5] + b[5] + c6  c5 == s5 \div B16
         s4 == a[4] + b[4] + c5  c4 == s4 \div B16
@@ -82,7 +82,7 @@ LAddMag(a, b) ==
         z  == i = 0 /\ s3 % B16 = 0 /\ s4 % B16 = 0 /\ s5 % B16 = 0 /\ s6 % B16 = 0
     IN  <<IF z THEN 0 ELSE 1, i, s3 % B16, s4 % B16, s5 % B16, s6 % B16, IF a[7] = 1 /\ b[7] = 1 THEN 1 ELSE 0>>
 \* |a - b| <= tol for non-negative limb numbers
-LWithin(a, b, tol) == LLe(a, LAddMag(b, tol)) /\ LLe(b, LAddMag(a, tol))
+LWithin(a, b, tol) == LLe(a, LSumMag(b, tol)) /\ LLe(b, LSumMag(a, tol))
 \* k * 2^-50 as a limb number (k < 32768): four units in the last place of a double in [1, 2) per unit of k
 LUlps4(k) == LMulMag(<<1, 0, 0, 0, 0, 16384, 1>>, k)
 \* v within [lo, hi] (integers)
